@@ -426,7 +426,7 @@ func (e *Ev) callStatic(fn *types.Func, recv *Term, args []Term, n *ast.CallExpr
 	if as := b.clauses("allocates"); len(as) > 0 {
 		allocPred = e.g().freshName("alloc$")
 		e.st.declareFun(allocPred, []string{sInt}, sBool)
-		e.g().Pre.add("(declare-fun fresh$ (Int) Bool)")
+		e.g().Pre.addFresh()
 		e.define(fmt.Sprintf("(forall ((r Int)) (! (=> (%s r) (fresh$ r)) :pattern ((%s r))))", allocPred, allocPred))
 		for _, o := range e.st.allocs {
 			e.define(smtNot(app(allocPred, o)))
